@@ -85,6 +85,18 @@ EventFails(o) ==
              THEN {"RequestsAdmissible"} ELSE {})
 Skipped(o) == IsUndef(Rows(Q, Events[o.e]))
 
+\* C05, reference-free form.  By construction of the harness run i (i <= number of events)
+\* is the one-event sequence <<i>> in a fresh job instance; what the same event yields later
+\* in a longer sequence (any position, any predecessors, incl. rejected events) must be
+\* exactly what it yields alone.  Nothing here depends on Denote, so it also covers values
+\* that come from opaque user C++.
+StateFails(o, r) ==
+  IF r <= Len(Events) \/ o.e = 0 \/ o.e > Len(Case.runs) THEN {}
+  ELSE LET alone == Case.runs[o.e] IN
+       IF alone.booked.fault # "none" \/ Len(alone.events) # 1 THEN {}
+       ELSE IF alone.events[1].rows = o.rows /\ (alone.events[1].fault = "none") = (o.fault = "none")
+            THEN {} ELSE {"StateCarried"}
+
 ----------------------------------------------------------------------------
 (* the behaviour of one case *)
 TInit == /\ c \in 1..Len(Cases) /\ pc = "new" /\ run = 0 /\ pos = 0 /\ judged = 0 /\ skipped = 0
@@ -117,7 +129,7 @@ NextRun ==
 ProcessEvent ==
   /\ pc = "booked" /\ pos < Len(Case.runs[run].events)
   /\ LET o == Case.runs[run].events[pos + 1] IN
-     /\ ReportAll(EventFails(o), run, pos + 1)
+     /\ ReportAll(EventFails(o) \cup StateFails(o, run), run, pos + 1)
      /\ IF EventFails(o) = {} THEN TRUE
         ELSE PrintT(<<"EXPECTED", ToJson([id |-> Case.id, run |-> run, pos |-> pos + 1, want |-> Rows(Q, Events[o.e])])>>)
      /\ pos' = pos + 1
